@@ -27,9 +27,9 @@ func init() {
 		Technique: "call-site bookkeeping monitor: every exported stack-capturing / domain-computing function x depth x call path through non-inlinable helpers in two packages; expected frame = the harness's own runtime.Caller record of the d-th caller; observed through GetReportableStackTrace, GetOneLineSource, GetDomain",
 		Rule: "enumerated completely: 64 table entries (42 functions of the root package, errutil, withstack, domains + 22 argument-value variants that take other code paths: empty message / format, error-typed format arguments, %w, nil arguments, an already flagged cause) x 2 defining packages x 7 call paths (0-3 helpers alternating between two packages) x depth 0..min(3, helpers) for functions with a depth parameter. " +
 			"Non-trivial = every (function, package, path, depth) tuple; distinct = the tuple. The last case lists exported functions with stack/domain names from the repository's source (go/parser) and reports those missing from the table as unexercised.",
-		Cases: func(string) int { return 2*len(sa.Table) + 1 },
-		Floor: func(string) int { return 300 },
-		Run:   runC16,
+		Cases:       func(string) int { return 2*len(sa.Table) + 1 },
+		Floor:       func(string) int { return 300 },
+		Run:         runC16,
 		Assumptions: []string{"the harness's own runtime.Caller bookkeeping on the same source line is the oracle", "grpc/status.Error/Errorf are outside the enumerated API (they capture their own frame) and are observed but not judged"},
 	})
 }
@@ -57,40 +57,51 @@ func runC16(c *core.Ctx) {
 				maxd = 3
 			}
 		}
-		for d := 0; d <= maxd; d++ {
-			tuple := fmt.Sprintf("%s|pkg-%s|path%d|d%d", ent.Name, pkg, pi, d)
-			c.Nontrivial(tuple)
-			c.Cover("function", ent.Name)
-			c.Cover("depth", fmt.Sprint(d))
-			var tr []sc.Frame
-			var res sc.R
-			if p := core.Try(func() {
-				if len(path) == 0 {
-					res = ent.Call(d, &tr)
-				} else {
-					res = path[0](path[1:], ent.Call, d, &tr)
+		for _, deep := range []int{0, 40, 130} {
+			if deep > 0 && pi != 0 && pi != 4 {
+				continue
+			}
+			for d := 0; d <= maxd; d++ {
+				tuple := fmt.Sprintf("%s|pkg-%s|path%d|d%d", ent.Name, pkg, pi, d)
+				if deep > 0 {
+					tuple += fmt.Sprintf("|%d-frames-below", deep)
 				}
-			}); p != nil {
-				c.Violate("panic/"+ent.Name, "constructor panicked", fmt.Sprintf("%s: %v", tuple, p))
-				continue
-			}
-			if len(tr) != len(path)+1 {
-				c.Inconclusive(fmt.Sprintf("harness: %s recorded %d frames for %d helpers", tuple, len(tr), len(path)))
-				continue
-			}
-			want := tr[d]
-			if c.Case%7 == 0 && pi == 4 && d == maxd {
-				c.Sample(map[string]interface{}{"tuple": tuple, "expected_frame": want, "recorded_call_path": tr})
-			}
-			if ent.HasStack {
-				c.Count("stack-observations", 1)
-				checkStack(c, ent.Name, tuple, res.Err, want)
-			}
-			if ent.IsDomain {
-				c.Count("domain-observations", 1)
-				wd := "error domain: pkg " + filepath.Dir(want.File)
-				if string(res.Dom) != wd {
-					c.Violate("domain/"+ent.Name, "package domain does not denote the package of the d-th caller", fmt.Sprintf("%s\ngot %q want %q", tuple, res.Dom, wd))
+				c.Cover("extra-frames-below-the-call-path", fmt.Sprint(deep))
+				c.Nontrivial(tuple)
+				c.Cover("function", ent.Name)
+				c.Cover("depth", fmt.Sprint(d))
+				var tr []sc.Frame
+				var res sc.R
+				if p := core.Try(func() {
+					sc.Deep(deep, func() {
+						if len(path) == 0 {
+							res = ent.Call(d, &tr)
+						} else {
+							res = path[0](path[1:], ent.Call, d, &tr)
+						}
+					})
+				}); p != nil {
+					c.Violate("panic/"+ent.Name, "constructor panicked", fmt.Sprintf("%s: %v", tuple, p))
+					continue
+				}
+				if len(tr) != len(path)+1 {
+					c.Inconclusive(fmt.Sprintf("harness: %s recorded %d frames for %d helpers", tuple, len(tr), len(path)))
+					continue
+				}
+				want := tr[d]
+				if c.Case%7 == 0 && pi == 4 && d == maxd {
+					c.Sample(map[string]interface{}{"tuple": tuple, "expected_frame": want, "recorded_call_path": tr})
+				}
+				if ent.HasStack {
+					c.Count("stack-observations", 1)
+					checkStack(c, ent.Name, tuple, res.Err, want)
+				}
+				if ent.IsDomain {
+					c.Count("domain-observations", 1)
+					wd := "error domain: pkg " + filepath.Dir(want.File)
+					if string(res.Dom) != wd {
+						c.Violate("domain/"+ent.Name, "package domain does not denote the package of the d-th caller", fmt.Sprintf("%s\ngot %q want %q", tuple, res.Dom, wd))
+					}
 				}
 			}
 		}
